@@ -49,10 +49,12 @@ std::unique_ptr<Archive::ArchiveFile> openArchive(const FileUnderTest& f)
 	return std::make_unique<Archive::ClmFile>(f.path);
 }
 
+bool gReaderKeyAvailable = true;
 std::string readerKey(Archive::ArchiveFile& a, bool vol)
 {
-	if (vol) return peek::key(static_cast<Archive::VolFile&>(a).archiveFileReader);
-	return peek::key(static_cast<Archive::ClmFile&>(a).clmFileReader);
+	// full private state of the shared file reader; if the member was renamed, "" (the search then keys states by the last call)
+	if (vol) return peek::volReaderKey(static_cast<Archive::VolFile&>(a), gReaderKeyAvailable);
+	return peek::clmReaderKey(static_cast<Archive::ClmFile&>(a), gReaderKeyAvailable);
 }
 
 // recorded extent of member i according to the format description, read leniently from the (corrupted) bytes
@@ -169,19 +171,20 @@ struct Explorer {
 			if (!extentProblem.empty()) { ctx.violation(std::string("C05/extent/") + (f.vol ? "vol" : "clm"), f.desc + " :: " + showOp(ops[k]), extentProblem); return; }
 			ctx.count(fresh[k][0] == 'R' ? "calls/returned" : "calls/ordinary-error");
 			std::string k2 = readerKey(*a, f.vol);
+			if (!gReaderKeyAvailable) k2 = "after-call-" + std::to_string(k);     // fallback: one state per first call (all sequences of length 2)
 			if (!states.count(k2)) { states[k2] = { k }; queue.push_back(k2); }
 		}
 		// every call in every reachable state behaves as on a fresh object
 		std::size_t expanded = 0;
 		while (!queue.empty()) {
 			std::string key = queue.front(); queue.pop_front();
-			if (++expanded > 24) { ctx.capHit("C05: more than 24 reader states for one file"); break; }
+			if (++expanded > (gReaderKeyAvailable ? 24u : 1000u)) { ctx.capHit("C05: more than 24 reader states for one file"); break; }
 			ctx.state();
 			std::vector<std::size_t> hist = states[key];
 			for (std::size_t k = 0; k < ops.size(); ++k) {
 				auto a = openArchive(f);
 				for (auto h : hist) observe(*a, ops[h], false);
-				if (readerKey(*a, f.vol) != key) { ctx.violation("harness/replay-diverged", f.desc, "history replay reached a different reader state"); return; }
+				if (gReaderKeyAvailable && readerKey(*a, f.vol) != key) { ctx.violation("harness/replay-diverged", f.desc, "history replay reached a different reader state"); return; }
 				std::string got = observe(*a, ops[k], false);
 				ctx.transition();
 				if (got != fresh[k]) {
@@ -191,7 +194,7 @@ struct Explorer {
 					return;
 				}
 				std::string k2 = readerKey(*a, f.vol);
-				if (!states.count(k2)) { auto h2 = hist; h2.push_back(k); states[k2] = h2; queue.push_back(k2); }
+				if (gReaderKeyAvailable && !states.count(k2)) { auto h2 = hist; h2.push_back(k); states[k2] = h2; queue.push_back(k2); }
 			}
 			ctx.count("sequences/states-expanded");
 		}
@@ -396,6 +399,7 @@ void runCase(std::size_t ci, Ctx& ctx)
 		else ctx.count("faults/single-field-or-byte");
 	}
 	if (ci == 40) ctx.sample("mutants " + mutantOf(sp, c.from).desc + " ... " + mutantOf(sp, c.to - 1).desc + ": opened; all call sequences explored against fresh-object observations");
+	if (peek::usedFallback()) ctx.count("binding/fallback-keys");
 	if (ci == 0) ctx.sample(mutantOf(sp, 3).desc + " -> VolFile constructor must fail with an ordinary error");
 	mc::removeTree(dir);
 }
